@@ -66,6 +66,9 @@ CLAIMS = {
     'C17': ('path evaluation of Util.execute_xform_size and the video reader resize region with symbolic dimension terms: bound/clamp shape of every size handed to cv2.resize, sibling cross-check, dispatch set agreement, operation table',
             'Decides bounds by construction (min/max against the configured pair), that no computed dimension reaches OpenCV unclamped, that accepted and executed actions agree, and the flip/rotate/format/box table.',
             'DESIGN.md §3 C17', 'Not decided: aspect ratio within one pixel, pixel permutations, colours.'),
+    'C15': ('forward, flow-sensitive, field-sensitive, summary-based inter-procedural taint analysis (config URI -> log / frame metadata / lineage facets / logged exception text) with isinstance narrowing; class-hierarchy evaluation of the sanitising walk; regex-AST inspection of the masking patterns',
+            'Decides that no configuration URI reaches a sink in Filter, the built-in filters or the lineage emit path without passing a sanitizer, that the masking walk recurses into every container class a configuration can hold, and that the mask patterns cover the documented alphabet. Five confirmed leaks that need a design decision (MQTTOut broker userinfo, ImageWriter file names) are recorded as known findings; the others were repaired.',
+            'DESIGN.md §3 C15', 'Not decided: that the regexes mask every RFC-valid credential (language inclusion); flows through objects whose type the resolver cannot bind (listed in evidence); exception texts of external libraries.'),
 }
 
 NOT_APPLICABLE = {
